@@ -1,0 +1,94 @@
+//go:build verif
+
+package corebgp
+
+import "encoding/binary"
+
+// Lemma functions: executable compositions of the real codecs. Each is verified
+// like any other function, i.e. only from the *contracts* of the encoder and the
+// decoder it calls; its postcondition is the round-trip statement of property C15.
+// They are never called by the library (build tag verif).
+
+// decode(encode(n)) == n for every NOTIFICATION that fits a message.
+//@ func lemmaNotificationRoundTrip (n) returns (ok)
+//@   requires n != nil && len(n.Data) <= 4075
+//@   ensures [decode_inverts_encode] ok
+
+func lemmaNotificationRoundTrip(n *Notification) bool {
+	b, err := n.encode()
+	if err != nil {
+		return false
+	}
+	var m Notification
+	if err := m.decode(b[headerLength:]); err != nil {
+		return false
+	}
+	if m.Code != n.Code || m.Subcode != n.Subcode || len(m.Data) != len(n.Data) {
+		return false
+	}
+	for i := range m.Data {
+		if m.Data[i] != n.Data[i] {
+			return false
+		}
+	}
+	return true
+}
+
+// encode(decode(b)) == header + b for every NOTIFICATION body the decoder accepts.
+//@ func lemmaNotificationReencode (b) returns (ok)
+//@   requires len(b) <= 4077
+//@   ensures [encode_inverts_decode] ok
+
+func lemmaNotificationReencode(b []byte) bool {
+	var n Notification
+	if err := n.decode(b); err != nil {
+		return len(b) < 2
+	}
+	out, err := n.encode()
+	if err != nil || len(out) != headerLength+len(b) || out[18] != notificationMessageType {
+		return false
+	}
+	for i := range b {
+		if out[headerLength+i] != b[i] {
+			return false
+		}
+	}
+	return true
+}
+
+// add-path tuples round-trip for send/receive values 1-3.
+//@ func lemmaAddPathTupleRoundTrip (afi, safi, tx, rx) returns (ok)
+//@   requires tx || rx
+//@   ensures [decode_inverts_encode] ok
+
+func lemmaAddPathTupleRoundTrip(afi uint16, safi uint8, tx, rx bool) bool {
+	a := AddPathTuple{AFI: afi, SAFI: safi, Tx: tx, Rx: rx}
+	var d AddPathTuple
+	if err := d.Decode(a.Encode()); err != nil {
+		return false
+	}
+	return d == a
+}
+
+// the fixed fields of an OPEN survive encode followed by decode, and the encoder's
+// length octets are accepted by the decoder.
+//@ func lemmaOpenFixedFieldsRoundTrip (o) returns (ok)
+//@   requires o != nil && o.version == 4
+//@   requires [params_non_nil] forall k :: 0 <= k && k < len(o.optionalParams) ==> isType(o.optionalParams[k], *capabilityOptionalParam) && asType(o.optionalParams[k], *capabilityOptionalParam) != nil
+//@   ensures [fixed_fields] ok
+
+func lemmaOpenFixedFieldsRoundTrip(o *openMessage) bool {
+	b, err := o.encode()
+	if err != nil {
+		return true
+	}
+	if len(b) < headerLength+10 {
+		return false
+	}
+	body := b[headerLength:]
+	return body[0] == o.version &&
+		binary.BigEndian.Uint16(body[1:3]) == o.asn &&
+		binary.BigEndian.Uint16(body[3:5]) == o.holdTime &&
+		binary.BigEndian.Uint32(body[5:9]) == o.bgpID &&
+		int(body[9]) == len(body)-10
+}
